@@ -63,6 +63,24 @@ LOCAL_KNOWN = os.path.join(os.path.dirname(os.path.abspath(__file__)), "c08_know
 WATCHDOG_S = 10.0
 MAX_STEPS = 40000
 
+# TODO: misbehaviours of the UNCHANGED library exposed by the coverage of this module that are not in
+# known_findings.json / c08_known_local.json yet (exact signature strings, as printed in the evidence under
+# coverage['pending_findings']).  They are looked up through report.known_match first; while a signature is listed
+# here and not yet known it is recorded in the evidence instead of failing the check.
+PENDING_FINDINGS = [
+    # LRUCache.__setitem__ is check-then-act (len(self) >= cache_size ... insert) and __getitem__ is delete-then-
+    # reinsert: two look-ups racing on a cache holding cache_size (or cache_size - 1) entries leave it with
+    # cache_size + 1 entries, and it never shrinks again
+    "fs.lrucache.LRUCache [corrupt:pattern-cache-over-capacity]",
+    # OSFS.scandir / filterdir with a namespace that needs a stat of every entry (details, access, stat, lstat, all):
+    # os.scandir lists the entry, a concurrent remove / move takes it away, dir_entry.stat() fails and scandir raises
+    # ResourceNotFound ABOUT THE DIRECTORY, which exists in every sequential order
+    "OSFS.remove||scandir parent/child",
+    "OSFS.move||scandir parent/child",
+    "OSFS.filterdir||remove parent/child",
+    "OSFS.filterdir||move parent/child",
+]
+
 # modules of the package without shared mutable state: their lines are not yield points
 # at grain "shared" (a switch before one of their lines is equivalent to a switch before
 # the next line of a module that can touch shared state).  Grain "all" traces them too.
@@ -302,8 +320,10 @@ class Sched(object):
             code = frame.f_code
             ic = _INCACHE.get(code)
             if ic is None:
-                ic = _INCACHE[code] = (os.path.basename(code.co_filename) in CACHE_FILES
-                                       and code.co_name not in CACHE_PURE_FUNCS)
+                bn = os.path.basename(code.co_filename)
+                # 0: not cache code, 1: fs/wildcard.py / fs/glob.py, 2: fs/lrucache.py (the cache container itself)
+                ic = _INCACHE[code] = (0 if bn not in CACHE_FILES or code.co_name in CACHE_PURE_FUNCS
+                                       else 2 if bn == "lrucache.py" else 1)
             self.incache = ic
             self.eff = effect_line(frame)
         else:
@@ -596,6 +616,61 @@ def make_call(tpl, p, t):
     return dict(m=m, tpl=tpl, p=p, args=args)
 
 
+# the namespace dimension of the info-returning calls (getinfo / scandir / filterdir / walk.info)
+NS_ALL = ["basic", "details", "access", "stat", "lstat", "link"]
+NS_CHOICES = collections.OrderedDict([
+    ("none", None), ("details", ["details"]), ("access", ["access"]), ("stat", ["stat"]), ("lstat", ["lstat"]),
+    ("link", ["link"]), ("all", NS_ALL)])
+NS_READERS = ["getinfo", "scandir", "filterdir", "walkinfo"]
+NS_METHOD = {"getinfo": "getinfo", "scandir": "scandir", "filterdir": "filterdir", "walkinfo": "walk"}
+
+
+def make_ns_call(reader, ns, p):
+    """Info-returning call ``reader`` on path ``p`` asking for the namespaces NS_CHOICES[ns]."""
+    return dict(m=NS_METHOD[reader], tpl="%s@%s" % (reader, ns), p=p, args=[p], ns=ns)
+
+
+def r_info_ns(i):
+    """Canonical text of an Info with whatever namespaces it carries (no time stamps, inode numbers, directory
+    sizes: they are not part of the outcome)."""
+    import stat as _stat
+    raw = i.raw
+    parts = [i.name, "dir" if i.is_dir else "file"]
+    for ns in sorted(raw):
+        d = raw[ns] or {}
+        if ns == "basic":
+            continue
+        if ns == "details":
+            parts.append("details:%s:%s" % (d.get("type"), "-" if i.is_dir else d.get("size")))
+        elif ns in ("stat", "lstat"):
+            parts.append("%s:%o:%s" % (ns, _stat.S_IFMT(d.get("st_mode", 0)), "-" if i.is_dir else d.get("st_size")))
+        elif ns == "link":
+            parts.append("link:%s" % (d.get("target"),))
+        elif ns == "access":
+            parts.append("access:%s" % ",".join(d.get("permissions") or []))
+        else:
+            parts.append(ns)
+    return "info(%s)" % "|".join(str(x) for x in parts)
+
+
+def do_ns_call(inst, f, call):
+    reader = call["tpl"].split("@")[0]
+    namespaces = NS_CHOICES[call["ns"]]
+    namespaces = list(namespaces) if namespaces is not None else None
+    path = inst.path(call["args"][0])
+    if reader == "getinfo":
+        return r_info_ns(f.getinfo(path, namespaces=namespaces))
+    if reader == "scandir":
+        l = [r_info_ns(i) for i in f.scandir(path, namespaces=namespaces)]
+    elif reader == "filterdir":
+        l = [r_info_ns(i) for i in f.filterdir(path, files=["*"], dirs=["*"], namespaces=namespaces)]
+    elif reader == "walkinfo":
+        l = ["%s=%s" % (q, r_info_ns(i)) for q, i in f.walk.info(path, namespaces=namespaces)]
+    else:
+        raise ValueError("unknown info reader %r" % (reader,))
+    return "[" + ",".join(sorted(l)) + "]"
+
+
 def r_info(i):
     raw = i.raw
     size = raw.get("details", {}).get("size")
@@ -609,6 +684,8 @@ def do_call(inst, t, call):
     a = call["args"]
     P = inst.path
     try:
+        if "ns" in call:
+            return do_ns_call(inst, f, call)
         if m == "makedir":
             if call["tpl"].endswith("!"):
                 f.makedir(P(a[0]), recreate=True)
@@ -707,6 +784,98 @@ def reset_caches(warm):
             fs.wildcard.imatch(pat, "zz")
 
 
+# ---- cache-state classes: the process-wide pattern caches before the threads start
+CACHE_STATES = ["empty", "few", "cap-1", "full"]
+_FILLERS = {}        # cache name -> [(key, value)] of cache_size filler patterns, made ONCE through the public API
+
+
+def _cache_of(name):
+    return fs.wildcard._PATTERN_CACHE if name == "wild" else fs.glob._PATTERN_CACHE
+
+
+def _fillers(name):
+    """cache_size filler entries of a pattern cache, in insertion order.  They are produced once per process by
+    matching cache_size distinct patterns through the public API (fs.wildcard.match / fs.glob.match) on the
+    cleared cache; later runs put the same entries back in the same order (OrderedDict level), which is the state
+    the public API calls leave -- checked once here."""
+    got = _FILLERS.get(name)
+    if got is None:
+        cache = _cache_of(name)
+        cache.clear()
+        n = cache.cache_size
+        for i in range(n):
+            if name == "wild":
+                fs.wildcard.match("filler-%d-*" % i, "zz")
+            else:
+                fs.glob.match("/filler-%d-*" % i, "/zz")
+        got = list(cache.items())
+        if len(got) != n or [k[0] for k, _v in got[:2]] != [("filler-%d-*" if name == "wild" else "/filler-%d-*") % i
+                                                            for i in range(2)]:
+            raise RuntimeError("pattern cache %s: %d entries after %d distinct patterns" % (name, len(got), n))
+        cache.clear()
+        _FILLERS[name] = got
+    return got
+
+
+def looked_up_patterns(call, inst):
+    """(cache name, pattern) the call looks up, or None."""
+    a = call["args"]
+    if len(a) < 2:
+        return None
+    base = inst.path(a[0]).rstrip("/") + "/"
+    if call["m"] == "glob":
+        return ("glob", a[1])
+    if call["m"] == "match_glob":
+        return ("glob", base + a[1])
+    if call["m"] in ("walk", "match", "filterdir"):
+        return ("wild", a[1])
+    return None
+
+
+def prepare_cache_state(case, inst):
+    """Put both pattern caches into the state class of the case: the patterns of the threads whose role is 'hit'
+    are looked up first (they are the LEAST recently used entries), then filler patterns up to the size of the
+    state class: empty = nothing, few = hits + 3, cap-1 = cache_size - 1, full = cache_size entries."""
+    from collections import OrderedDict
+    state = case["cstate"]
+    hits = {"wild": [], "glob": []}
+    for th, role in zip(case["threads"], case["croles"]):
+        if role != "hit":
+            continue
+        for c in th:
+            lp = looked_up_patterns(c, inst)
+            if lp and lp[1] not in hits[lp[0]]:
+                hits[lp[0]].append(lp[1])
+    for name in ("wild", "glob"):
+        cache = _cache_of(name)
+        fill = _fillers(name)
+        cache.clear()
+        if state == "empty":
+            continue
+        for pat in hits[name]:
+            if name == "wild":
+                fs.wildcard.match(pat, "zz")
+            else:
+                fs.glob.match(pat, "/zz")
+        target = {"few": len(cache) + 3, "cap-1": cache.cache_size - 1, "full": cache.cache_size}[state]
+        for k, v in fill[:max(0, target - len(cache))]:
+            OrderedDict.__setitem__(cache, k, v)
+
+
+CACHE_OVER = "pattern-cache-over-capacity"
+CACHE_OVER_SIGNATURE = "fs.lrucache.LRUCache [corrupt:%s]" % CACHE_OVER
+
+
+def cache_invariants():
+    """[('!', flag, cache)] for a pattern cache that ended in a state no sequence of look-ups can leave."""
+    bad = []
+    for name in ("wild", "glob"):
+        cache = _cache_of(name)
+        if len(cache) > cache.cache_size:
+            bad.append(["!", CACHE_OVER, "%s:%d>%d" % (name, len(cache), cache.cache_size)])
+    return bad
+
+
 def warm_patterns(case, inst):
     """(glob patterns, wildcard patterns) the calls of a warm case will look up."""
     if not case.get("warm"):
@@ -744,7 +913,10 @@ def execute(case, schedule=(), policy=None, rnd=None):
     inst = Instance(case["fs"], n)
     res = Result()
     try:
-        reset_caches(warm_patterns(case, inst))
+        if "cstate" in case:
+            prepare_cache_state(case, inst)
+        else:
+            reset_caches(warm_patterns(case, inst))
         sched = Sched(n, schedule, policy, rnd)
         grain = case.get("grain", "shared")
         _GRAIN_ALL = grain == "all"
@@ -778,6 +950,8 @@ def execute(case, schedule=(), policy=None, rnd=None):
         else:
             res.status = "ok"
             res.tree = inst.snapshot()
+            if "cstate" in case:
+                res.tree = res.tree + cache_invariants()
         res.key = outcome_key(res.results, res.tree)
         return res
     finally:
@@ -799,13 +973,19 @@ def sequential(case):
     for order in orders(threads):
         inst = Instance(case["fs"], len(threads))
         try:
-            reset_caches(warm_patterns(case, inst))
+            if "cstate" in case:
+                prepare_cache_state(case, inst)
+            else:
+                reset_caches(warm_patterns(case, inst))
             results = [[] for _ in threads]
             nxt = [0] * len(threads)
             for t in order:
                 results[t].append(do_call(inst, t, threads[t][nxt[t]]))
                 nxt[t] += 1
-            key = outcome_key(results, inst.snapshot())
+            tree = inst.snapshot()
+            if "cstate" in case:
+                tree = tree + cache_invariants()
+            key = outcome_key(results, tree)
             out.setdefault(key, list(order))
         finally:
             inst.close()
@@ -824,6 +1004,12 @@ def judge(res, seq):
         for r in th:
             if r.startswith("crash:") or r.startswith("harness-error"):
                 return r.split(" ")[0]
+    flags = [k for p, k, _b in res.tree if p == "!"]
+    if flags and all(k == CACHE_OVER for k in flags):
+        # the over-capacity flag of a pattern cache must not stand for a wrong result: without the flag the outcome
+        # still has to be a sequential one
+        if outcome_key(res.results, [x for x in res.tree if x[0] != "!"]) not in seq:
+            return "not-linearizable"
     for p, k, _b in res.tree:
         if p == "!":
             return "corrupt:" + k
@@ -869,6 +1055,8 @@ def pair_signature(kind, c1, c2):
 
 def case_signatures(case, failure):
     """Candidate known-finding signatures of a failing case (most specific first)."""
+    if failure == "corrupt:" + CACHE_OVER:
+        return [CACHE_OVER_SIGNATURE]       # a property of the shared container, whatever entry points reach it
     suffix = "" if failure == "not-linearizable" else " [%s]" % failure
     sigs = []
     th = case["threads"]
@@ -882,11 +1070,12 @@ def case_signatures(case, failure):
     return sigs
 
 
-def class_signatures(case, failure):
+def class_signatures(case, failure, crashed=None):
     """Coarser known-finding classes: '<FSKind>.<method>||*' = this method of this kind is
     not one atomic block (it loses against any concurrent mutator of a related path).  Only
     for outcomes that are merely non-linearizable; a crash / deadlock / corrupted internal
-    state always needs its exact signature."""
+    state always needs its exact signature.  For a crash the class is that of the call(s) that
+    CRASHED (``crashed``: their method names), never that of the other call of the pair."""
     if failure == "not-linearizable":
         suffix = ""
     elif failure.startswith("crash:"):
@@ -896,6 +1085,8 @@ def class_signatures(case, failure):
     out = []
     for th in case["threads"]:
         for c in th:
+            if failure.startswith("crash:") and crashed is not None and c["m"] not in crashed:
+                continue
             s = "%s.%s||*%s" % (case["fs"], c["m"], suffix)
             if s not in out:
                 out.append(s)
@@ -904,6 +1095,8 @@ def class_signatures(case, failure):
 
 def main_signature(case, failure):
     th = case["threads"]
+    if failure == "corrupt:" + CACHE_OVER:
+        return CACHE_OVER_SIGNATURE
     if len(th) == 2 and len(th[0]) == 1 and len(th[1]) == 1:
         return case_signatures(case, failure)[0]
     ms = sorted(c["m"] for t in th for c in t)
@@ -970,6 +1163,97 @@ def multi_cases(kind, seed, count):
     return cases
 
 
+# ---- the namespace dimension: info-returning calls x namespaces x every mutator
+
+_FILES = dict(TREE_FILES)
+_EMPTY_DIRS = [d for d in TREE_DIRS if not any(q.startswith(d + "/") for q in TREE_DIRS + list(_FILES))]
+
+
+def path_type(p):
+    """Type of a path in the fixed start tree: file | dir | emptydir | missing | orphan (parent missing too)."""
+    if p in _FILES:
+        return "file"
+    if p in _EMPTY_DIRS:
+        return "emptydir"
+    if p in TREE_DIRS or p == "/":
+        return "dir"
+    parent = fs.path.dirname(p)
+    return "missing" if (parent in TREE_DIRS or parent == "/") else "orphan"
+
+
+# start states of the primary path on which a mutator does something (anything else fails in every order)
+_ANYDIR = ("dir", "emptydir")
+MUTATOR_APPLIES = {
+    "remove": ("file",), "removedir": ("emptydir",), "removetree": _ANYDIR, "move": ("file",), "movedir": _ANYDIR,
+    "copy": ("file",), "copydir": _ANYDIR, "writebytes": ("file", "missing"), "appendbytes": ("file", "missing"),
+    "create": ("file", "missing"), "touch": ("file", "missing"), "makedir": ("missing",),
+    "makedir!": ("missing",) + _ANYDIR, "makedirs": ("missing", "orphan") + _ANYDIR, "move>": ("file", "missing"),
+    "copy>": ("file", "missing"), "movedir>": ("missing",) + _ANYDIR, "copydir>": ("missing",) + _ANYDIR,
+    "setinfo": ("file",) + _ANYDIR,
+}
+VANISHERS = ["remove", "removedir", "removetree", "move", "movedir"]     # make their primary path disappear
+
+
+def ns_universe(kind):
+    """Every (info reader x namespaces x mutator x path relation x configuration x role assignment) in which the
+    mutator does something and the reader's path can be read in at least one order."""
+    out = []
+    for reader in NS_READERS:
+        for mut in MUTATORS:
+            for rel, configs in REL_CONFIGS.items():
+                for ci, (p1, p2) in enumerate(configs):
+                    roles = [(p1, p2)] if rel == "same" else [(p1, p2), (p2, p1)]
+                    for rp, mp in roles:
+                        if path_type(mp) not in MUTATOR_APPLIES[mut]:
+                            continue
+                        if reader != "getinfo" and path_type(rp) == "file":
+                            continue
+                        if path_type(rp) == "orphan":
+                            continue
+                        for ns in NS_CHOICES:
+                            out.append(dict(fs=kind, relation=rel, config="ns-%s-%d" % (rel, ci), nsdim=True,
+                                            threads=[[make_ns_call(reader, ns, rp)], [make_call(mut, mp, 1)]]))
+    return out
+
+
+def ns_cases(kind, tier, seed, every=1):
+    """thorough: the universe.  quick: (A) every reader x EVERY namespace choice x every mutator that makes the
+    reader's own path disappear (remove / removedir / removetree / move / movedir, relation same); (B) the same
+    mutators on the parent / on a child of the reader's path with 'all' + two rotating namespace choices; (C) from
+    the rest of the universe two cases per (reader, mutator) rotating with the seed over namespaces / relations /
+    configurations.  ``every`` = n keeps every n-th of them (composite kinds)."""
+    uni = ns_universe(kind)
+    if tier == "thorough":
+        return uni
+    names = list(NS_CHOICES)
+    chosen = []
+    strata = collections.OrderedDict()
+    nb = 0
+    for c in uni:
+        rc, mc = c["threads"][0][0], c["threads"][1][0]
+        vanish = mc["tpl"] in VANISHERS
+        if vanish and c["relation"] == "same":
+            chosen.append(c)
+            continue
+        if vanish and c["relation"] == "parent/child":
+            nb += 1
+            k = (nb // len(names) + seed) % (len(names) - 1)       # constant over the 7 consecutive ns variants
+            if rc["ns"] in ("all", names[k], names[(k + 3) % (len(names) - 1)]):
+                chosen.append(c)
+                continue
+        strata.setdefault((rc["tpl"].split("@")[0], mc["tpl"]), []).append(c)
+    for i, (k, group) in enumerate(strata.items()):
+        for j in range(2):
+            chosen.append(group[(i * 5 + seed * 3 + j * (len(group) // 2 + 1)) % len(group)])
+    if every > 1:
+        off = FS_KINDS.index(kind)
+        chosen = [c for k, c in enumerate(chosen) if (k + off + seed) % every == 0]
+    return chosen
+
+
+NS_PARAMS = dict(bound=1, cap1=4, cap2=0, random=2, uniform=0, cap_effect=120)
+
+
 CACHE_PATTERN = "*.py"
 CACHE_DIR = "/d/s"          # one file: a handful of cache look-ups per call
 CACHE_TEMPLATES = ["match", "match_glob", "filterdir", "walk", "glob"]
@@ -999,13 +1283,79 @@ def cache_cases(kind, warm):
     return cases
 
 
+CACHE_PATTERNS = [CACHE_PATTERN, "x*"]
+WILD_USERS = ["match", "filterdir", "walk"]        # look patterns up in fs.wildcard._PATTERN_CACHE
+GLOB_USERS = ["match_glob", "glob"]                # ... in fs.glob._PATTERN_CACHE
+# (role of thread 0, role of thread 1, same pattern?)   hit = its pattern is in the cache before the threads start
+CACHE_ROLES = [("hit", "hit", True), ("hit", "hit", False), ("hit", "miss", False), ("miss", "miss", False),
+               ("miss", "miss", True)]
+
+
+def cache_call_pat(tpl, pattern):
+    c = cache_call(tpl)
+    c["args"][1] = pattern
+    return c
+
+
+def cache_state_universe(kind):
+    """Pairs of calls that use the SAME process-wide pattern cache (fs.wildcard's or fs.glob's) x cache state class
+    (empty, few, capacity-1, exactly full) x what each thread's look-up is (hit / miss; with a full cache a miss
+    evicts, with capacity-1 the second miss evicts) x same / different pattern."""
+    cases = []
+    for users in (WILD_USERS, GLOB_USERS):
+        for i, t1 in enumerate(users):
+            for t2 in users[i:]:
+                for state in CACHE_STATES:
+                    for r1, r2, same in CACHE_ROLES:
+                        if state == "empty" and "hit" in (r1, r2):
+                            continue
+                        pats = [CACHE_PATTERNS[0], CACHE_PATTERNS[0 if same else 1]]
+                        variants = [((t1, r1), (t2, r2))]
+                        if r1 != r2 and t1 != t2:
+                            variants.append(((t1, r2), (t2, r1)))
+                        for (ta, ra), (tb, rb) in variants:
+                            cases.append(dict(
+                                fs=kind, relation="same", cstate=state, croles=[ra, rb],
+                                config="cache-%s-%s/%s-%s" % (state, ra, rb, "same" if same else "diff"),
+                                threads=[[cache_call_pat(ta, pats[0])], [cache_call_pat(tb, pats[1])]]))
+    return cases
+
+
+def cache_state_cases(kind, tier, seed):
+    """thorough: the universe.  quick: all of it for the pairs of the small entry points (match||match,
+    match_glob||match_glob: the cache code is nearly all they run; FS.match / match_glob are fs.base code, the same
+    for every kind, so on MemoryFS only); for every other pair of users every state class x role combination once,
+    rotating over the pairs with the seed."""
+    uni = cache_state_universe(kind)
+    if tier == "thorough":
+        return uni
+    chosen = []
+    strata = collections.OrderedDict()
+    for c in uni:
+        ms = [th[0]["m"] for th in c["threads"]]
+        if ms in (["match", "match"], ["match_glob", "match_glob"]) and kind == "MemoryFS":
+            chosen.append(c)
+        else:
+            cache = "wild" if ms[0] in WILD_USERS else "glob"
+            strata.setdefault((cache, c["config"]), []).append(c)
+    for i, (k, group) in enumerate(strata.items()):
+        if kind != "MemoryFS" and (i + seed) % 2:
+            continue        # the other kinds: every second (state, roles) class per seed
+        chosen.append(group[(i + seed) % len(group)])
+    return chosen
+
+
+# quick tier of the cache-state classes: every single preemption + every double preemption inside fs/lrucache.py
+CACHE_STATE_PARAMS = dict(bound=1, cap1=8, cache1=True, cap2=0, random=4, uniform=0, cache2="lru", unit=3,
+                          cap_effect=150, case_timeout=300)
 CACHE_PARAMS = dict(bound=1, cap1=100000, cap2=0, random=10, uniform=0, cache2=True, unit=1,
                     case_timeout=300)
 
 
 def case_text(case):
     return "%s %s: %s" % (case["fs"], case["relation"], " || ".join(
-        "; ".join("%s(%s)" % (c["m"], ",".join(c["args"])) for c in th) for th in case["threads"]))
+        "; ".join("%s(%s)" % (c["tpl"] if "ns" in c else c["m"], ",".join(c["args"])) for c in th)
+        for th in case["threads"]))
 
 
 def is_trivial(seq):
@@ -1048,6 +1398,11 @@ def plan_schedules(case, params, rnd, stats):
         if len(must) > params.get("cap_effect", 400):
             must = rnd.sample(must, params.get("cap_effect", 400))
             stats["l1_effect_capped"] = True
+        keep = []
+        if params.get("cache1"):
+            # cache-state cases: every single preemption inside the pattern cache code is run, cap1 applies to the rest
+            keep = [x for x in cand if x[3]]
+            cand = [x for x in cand if not x[3]]
         if len(cand) > params["cap1"]:
             # preemptions of a thread that holds no lock first (the gaps of check-then-act
             # sequences), the rest of the budget on preemptions inside locked regions
@@ -1056,7 +1411,7 @@ def plan_schedules(case, params, rnd, stats):
             k_free = min(len(free), max(params["cap1"] * 3 // 4, params["cap1"] - len(held_)))
             cand = rnd.sample(free, k_free) + rnd.sample(held_, params["cap1"] - k_free)
             cand.sort(key=lambda x: x[1])
-        cand = sorted(must + cand, key=lambda x: x[1])
+        cand = sorted(must + keep + cand, key=lambda x: x[1])
         for sch, i, _h, ic in cand:
             res = yield ("p1", sch, None)
             stats["l1_run"] += 1
@@ -1066,13 +1421,15 @@ def plan_schedules(case, params, rnd, stats):
         # EXHAUSTIVE double preemption inside the pattern cache code: first preemption at a
         # line of lrucache/wildcard/glob, second preemption (of whichever thread runs then)
         # at a later line of these files
+        # (cache2 == "lru": both switch points are lines of fs/lrucache.py, the container operations)
+        need = 2 if params["cache2"] == "lru" else 1
         cand = []
         for sch, i, res, ic in level1:
-            if not ic:
+            if not ic or ic < need:
                 continue
             for j in range(i + 1, len(res.trace)):
                 c, n, stay, _h, ic2 = res.trace[j][:5]
-                if n > 1 and (ic2 or not stay):
+                if n > 1 and ((ic2 and ic2 >= need) or not stay):
                     for alt in range(n):
                         if alt != c:
                             cand.append([x[0] for x in res.trace[:j]] + [alt])
@@ -1133,6 +1490,7 @@ def explore_case(case, params, seed):
         if out["trivial"] and params.get("skip_trivial", True):
             return out
         pst = {}
+        threads_ = case["threads"]
         gen = plan_schedules(case, params, rnd, pst)
         res = None
         first_key = None
@@ -1158,11 +1516,15 @@ def explore_case(case, params, seed):
                 out["outcomes"][fail] += 1
                 f = out["failures"].get(fail)
                 pre = preemptions(res)
+                crashed = sorted(set(c["m"] for th, rs in zip(threads_, res.results) for c, r in zip(th, rs)
+                                     if r.split(" ")[0] == fail)) if fail.startswith("crash:") else []
                 if f is None or pre < f["preemptions"]:
                     out["failures"][fail] = dict(schedule=realized(res), preemptions=pre,
-                                                 count=(f["count"] if f else 0) + 1, phase=phase)
+                                                 count=(f["count"] if f else 0) + 1, phase=phase,
+                                                 crashed=sorted(set(crashed) | set(f["crashed"] if f else [])))
                 else:
                     f["count"] += 1
+                    f["crashed"] = sorted(set(crashed) | set(f["crashed"]))
             if res.switches > 0 and len(res.trace) > 1:
                 out["distinct"].add(hash((tuple(x[0] for x in res.trace), res.key)))
         out["l1"] = (pst["l1_run"], pst["l1_total"])
@@ -1209,6 +1571,14 @@ def tier_plan(tier, seed):
         for kind in FS_KINDS:
             plan.append((cache_cases(kind, True), CACHE_PARAMS))
         plan.append((cache_cases("MemoryFS", False), CACHE_PARAMS))
+        # cache-state classes: the whole universe; every double preemption inside the cache code on MemoryFS, inside
+        # fs/lrucache.py on the other kinds
+        for kind in FS_KINDS:
+            plan.append((cache_state_cases(kind, tier, seed),
+                         dict(CACHE_STATE_PARAMS, cache2=True) if kind == "MemoryFS" else CACHE_STATE_PARAMS))
+        # namespace dimension: the whole universe on the two primary backends, the quick selection on the composites
+        for kind in FS_KINDS:
+            plan.append((ns_cases(kind, tier if kind in ("MemoryFS", "OSFS") else "quick", seed), NS_PARAMS))
     else:
         for kind in FS_KINDS:
             mem = kind == "MemoryFS"
@@ -1222,6 +1592,12 @@ def tier_plan(tier, seed):
         # serialise their cache look-ups there; OSFS has no such lock
         plan.append((cache_cases("MemoryFS", True), CACHE_PARAMS))
         plan.append((cache_cases("OSFS", True), CACHE_PARAMS))
+        # cache-state classes (empty / few / capacity-1 / exactly full x hit / miss / evict) of both pattern caches
+        plan.append((cache_state_cases("MemoryFS", tier, seed), CACHE_STATE_PARAMS))
+        plan.append((cache_state_cases("OSFS", tier, seed), CACHE_STATE_PARAMS))
+        # namespace dimension of getinfo / scandir / filterdir / walk.info on every kind
+        for kind in FS_KINDS:
+            plan.append((ns_cases(kind, tier, seed, every=1 if kind in ("MemoryFS", "OSFS") else 4), NS_PARAMS))
     return plan
 
 
@@ -1251,6 +1627,10 @@ class Stats(object):
         self.both_orders_seen = 0
         self.max_choice_points = 0
         self.samples = []
+        self.ns_cases = collections.Counter()           # kind/reader@namespaces -> cases explored
+        self.ns_schedules = 0
+        self.cache_state_cases = collections.Counter()  # cache/state/roles -> cases explored
+        self.cache_state_schedules = 0
         self.wall = 0.0
         self.skipped = 0
 
@@ -1264,6 +1644,13 @@ class Stats(object):
             return
         self.schedules += o["schedules"]
         self.distinct += o["distinct"]
+        if case.get("nsdim"):
+            self.ns_cases["%s/%s" % (case["fs"], case["threads"][0][0]["tpl"])] += 1
+            self.ns_schedules += o["schedules"]
+        if "cstate" in case:
+            cache = "wildcard" if case["threads"][0][0]["m"] in WILD_USERS else "glob"
+            self.cache_state_cases["%s/%s" % (cache, case["config"][len("cache-"):])] += 1
+            self.cache_state_schedules += o["schedules"]
         self.phases.update(o["phases"])
         self.outcomes.update(o["outcomes"])
         self.by_fs[case["fs"]] += o["schedules"]
@@ -1431,11 +1818,11 @@ def diff_text(obs, seqs):
         obs["results"], "; ".join(str(s["results"]) for s in seqs[:4]))
 
 
-def report_failures(report, st, observed=None):
+def report_failures(report, st, observed=None, pending=None):
     look = known_lookup(report)
     groups = collections.OrderedDict()
     for case, kind, info in sorted(st.failing, key=lambda x: (len(x[0]["threads"]) * 10 + sum(len(t) for t in x[0]["threads"]), x[2]["preemptions"])):
-        sigs = case_signatures(case, kind) + class_signatures(case, kind)
+        sigs = case_signatures(case, kind) + class_signatures(case, kind, info.get("crashed") or None)
         known = None
         for s in sigs:
             known = look(s)
@@ -1447,6 +1834,13 @@ def report_failures(report, st, observed=None):
                 observed.setdefault(known["signature"], dict(case=case, kind=kind, info=info))
             continue
         sig = main_signature(case, kind)
+        if sig in PENDING_FINDINGS:
+            if pending is not None and sig not in pending:
+                pending[sig] = dict(case=case_text(case), schedule=info["schedule"], kind=kind,
+                                    schedules_failing_in_run=info["count"])
+            elif pending is not None:
+                pending[sig]["schedules_failing_in_run"] += info["count"]
+            continue
         if sig not in groups:
             groups[sig] = (case, kind, info)
     n = 0
@@ -1520,6 +1914,23 @@ def coverage(st, tier, groups):
         max_choice_points_in_a_run=st.max_choice_points,
         pattern_cache_cases_with_exhaustive_double_preemption=st.cache_cases,
         pattern_cache_double_preemption_schedules=st.cache_double,
+        namespace_dimension_cases=sum(st.ns_cases.values()),
+        namespace_dimension_schedules=st.ns_schedules,
+        namespace_dimension_cases_by_kind_reader_namespaces=dict(sorted(st.ns_cases.items())),
+        namespace_dimension_rule="getinfo / scandir / filterdir / walk.info with namespaces none | details | access | "
+                                 "stat | lstat | link | all against every mutator template (quick: every "
+                                 "namespace choice against every mutator that makes the reader's path disappear; "
+                                 "rotating selection of the rest); a non fs.errors exception is a crash outcome and "
+                                 "needs its exact [crash:X] signature, class signatures only of the call that crashed",
+        cache_state_cases=sum(st.cache_state_cases.values()),
+        cache_state_schedules=st.cache_state_schedules,
+        cache_state_cases_by_cache_state_roles=dict(sorted(st.cache_state_cases.items())),
+        cache_state_rule="fs.wildcard._PATTERN_CACHE and fs.glob._PATTERN_CACHE filled through the public API to "
+                         "empty / few / cache_size-1 / exactly cache_size entries before the threads start; thread "
+                         "pairs hit/hit, hit/miss, miss/miss (a miss evicts when the cache is full) with the same "
+                         "and with different patterns; every single preemption inside the cache code + every "
+                         "double preemption inside fs/lrucache.py; a cache holding more than cache_size entries "
+                         "afterwards is flagged (%s)" % CACHE_OVER_SIGNATURE,
         failing_case_kinds=len(st.failing), unknown_failure_signatures=sorted(groups)[:40],
         units=getattr(st, "units", None), units_skipped_by_time_budget=st.skipped,
         explore_wall_s=round(st.wall, 1), exhaustive=False,
@@ -1530,8 +1941,11 @@ def coverage(st, tier, groups):
 def run(report):
     proof = common.preflight(report)
     st = explore(report.tier, report.seed)
-    groups = report_failures(report, st)
-    return report.finish(proof, coverage(st, report.tier, groups), assumptions=ASSUMPTIONS)
+    pending = {}
+    groups = report_failures(report, st, pending=pending)
+    cov = coverage(st, report.tier, groups)
+    cov["pending_findings"] = pending
+    return report.finish(proof, cov, assumptions=ASSUMPTIONS)
 
 
 def replay(report, path):
